@@ -18,6 +18,7 @@ pub fn dispatch(v: &Value) -> Value {
         "mirror_bounded" => mirror_bounded(v),
         "ng" => ng_cmd(v),
         "completion_search" => completion_search(v),
+        "bridge_store" => bridge_store(v),
         "bdd_query" => bdd_query(v),
         "counts_kernel" => {
             let mc: ModelCounts = (us(&v["cmodels"]), us(&v["models"])).into();
@@ -908,4 +909,22 @@ pub fn backend_sem(n: usize, tabs: &[Vec<u8>], backend: &str, inner: &str, v: &V
     let cls: Vec<String> = res.iter().map(|r| classes(r)).collect();
     let raw: Vec<Vec<usize>> = res.iter().map(|r| r.iter().map(|t| t.value()).collect()).collect();
     json!({"result": cls, "raw": raw, "nodes": nodes, "sender_alive": sender_alive, "text": text})
+}
+
+
+/// the naive store produced by the real bridge (real biodivine) for the ADF given by truth tables: node table, root handles and the
+/// function of every root
+pub fn bridge_store(v: &Value) -> Value {
+    let n = us(&v["n"]);
+    let tabs = tabs_of(&v["tabs"]);
+    let text = text_from_tabs(n, &tabs);
+    let parser = AdfParser::default();
+    if parser.parse()(&text).is_err() {
+        return json!({"error": "parse"});
+    }
+    let bio = BdAdf::from_parser(&parser);
+    let adf = if v["pregrounded"].as_bool().unwrap_or(false) { bio.hybrid_step() } else { bio.hybrid_step_opt(false) };
+    let roots: Vec<usize> = adf.ac.iter().map(|t| t.value()).collect();
+    let tables: Vec<Value> = adf.ac.iter().map(|t| table(&adf.bdd, *t, n)).collect();
+    json!({"nodes": dump_nodes(&adf.bdd), "roots": roots, "tables": tables, "text": text})
 }
